@@ -187,3 +187,43 @@ func VerifH_C19_LateResponse() {
 	vfAssert(vfPending(e.sc) == 0, "a pending slot is left behind")
 	vfReach("second")
 }
+
+// C19: a request that fails while it is being sent (here: its context has already ended)
+// releases everything it took: no pending slot, and the channel's pending-request count is back
+// to zero — a token renewal waits for that count and would otherwise block every later request.
+func VerifH_C19_FailedSend() {
+	e := vfC18Client(nil)
+	go e.sc.dispatcher()
+	ctx, cancel := context.WithCancel(context.Background())
+	cancel()
+	err := e.sc.SendRequestWithTimeout(ctx, &ua.ActivateSessionRequest{ClientSignature: &ua.SignatureData{}}, nil, time.Second, func(r ua.Response) error { return nil })
+	if err == nil {
+		vfReach("sentAnyway")
+		return
+	}
+	vfAssert(vfPending(e.sc) == 0, "a request that failed to be sent leaves a pending slot behind")
+	e.sc.pendingReq.Wait() // returns at once unless the failed request is still counted (then: deadlock)
+	vfReach("released")
+}
+
+// C18: the peer answers the pending request id with a well-formed message whose body is not a
+// response at all (an echoed request). The call must not succeed silently: either it returns an
+// error, or its handler has been called (with no response) so that the caller can refuse it.
+func VerifH_C18_NonResponseBody() {
+	req := &ua.ActivateSessionRequest{RequestHeader: &ua.RequestHeader{AuthenticationToken: ua.NewTwoByteNodeID(0), AdditionalHeader: ua.NewExtensionObject(nil)}, ClientSignature: &ua.SignatureData{},
+		UserIdentityToken: ua.NewExtensionObject(nil), UserTokenSignature: &ua.SignatureData{}}
+	plain, _ := ua.Encode(req)
+	typeID, _ := ua.Encode(ua.NewFourByteExpandedNodeID(0, ua.ServiceTypeID(req)))
+	e := vfC18Client(vfChunk('F', 5, 9, 11, 1, append(typeID, plain...)))
+	go e.sc.dispatcher()
+	calls := 0
+	var got ua.Response
+	err := e.sc.SendRequestWithTimeout(context.Background(), &ua.ActivateSessionRequest{ClientSignature: &ua.SignatureData{}}, nil, time.Second, func(r ua.Response) error {
+		calls++
+		got = r
+		return nil
+	})
+	vfAssert(err != nil || (calls == 1 && got == nil), "a reply that is not a response lets the call succeed without anybody having seen it")
+	vfAssert(vfPending(e.sc) == 0, "a pending slot is left behind after the call returned")
+	vfReach("handled")
+}
